@@ -237,6 +237,7 @@ class Builder:
         g = self.g
         if isinstance(s, ast.If):
             t = g.new("test", s.test, info=s)
+            g.by_ast.setdefault(id(s), []).append(t)
             self._connect(preds, t)
             self._raise_from(t, s.test, "expr", ctx)
             a = self.block(s.body, [(t, "T")], ctx)
@@ -244,6 +245,7 @@ class Builder:
             return a + b
         if isinstance(s, ast.While):
             t = g.new("test", s.test, info=s)
+            g.by_ast.setdefault(id(s), []).append(t)
             self._connect(preds, t)
             self._raise_from(t, s.test, "expr", ctx)
             brk: Dangling = []
@@ -276,6 +278,7 @@ class Builder:
             cur = preds
             for item in s.items:
                 w = g.new("with", item.context_expr, info=s)
+                g.by_ast.setdefault(id(s), []).append(w)
                 self._connect(cur, w)
                 self._raise_from(w, item.context_expr, "expr", ctx)
                 cur = [(w, "n")]
@@ -397,6 +400,7 @@ class Builder:
 
         body_ctx = _Ctx(wrap("ret", ctx.ret), wrap("break", ctx.brk), wrap("continue", ctx.cont), body_exc, ctx.handler_types)
         t = g.new("try", None, info=s)
+        g.by_ast.setdefault(id(s), []).append(t)
         self._connect(preds, t)
         out = self.block(s.body, [(t, "n")], body_ctx)
         rest_ctx_base = (wrap("ret", ctx.ret), wrap("break", ctx.brk), wrap("continue", ctx.cont), outer_exc)
